@@ -300,8 +300,11 @@ pub fn enc_stable<Ty: EdgeType, Ix: IndexType>(rng: &mut Rng, ag: &AG, node_orde
     let mut cidx = vec![Default::default(); ag.n];
     let mut dummies = Vec::new();
     for &a in node_order {
-        if holes && rng.chance(35) {
+        // runs of 1..3 dummies: adjacent vacancies matter (iterators that skip only one vacant slot)
+        let mut run = 0;
+        while holes && run < 3 && rng.chance(35) {
             dummies.push(g.add_node(usize::MAX));
+            run += 1;
         }
         cidx[a] = g.add_node(a);
     }
@@ -339,8 +342,10 @@ pub fn enc_matrix<Ty: EdgeType>(rng: &mut Rng, ag: &AG, node_order: &[usize], ed
     let mut cidx = vec![Default::default(); ag.n];
     let mut dummies = Vec::new();
     for &a in node_order {
-        if holes && rng.chance(35) {
+        let mut run = 0;
+        while holes && run < 3 && rng.chance(35) {
             dummies.push(g.add_node(usize::MAX));
+            run += 1;
         }
         cidx[a] = g.add_node(a);
     }
